@@ -362,10 +362,37 @@ func (e *Engine) specHeap(s *State, c *SpecCtx, name, sortS string) string {
 	return e.heapGet(s, name, sortS)
 }
 
+// FieldAlias: "pkg.Struct.old" -> "new" for struct fields that were renamed since the contracts were
+// written (derived by position from the recorded field lists, see LoadFieldAliases).
+var FieldAlias = map[string]string{}
+
+func aliasField(t types.Type, field string) string {
+	if len(FieldAlias) == 0 || t == nil {
+		return field
+	}
+	if p, ok := t.Underlying().(*types.Pointer); ok {
+		t = p.Elem()
+	}
+	st, ok := t.Underlying().(*types.Struct)
+	if !ok {
+		return field
+	}
+	for i := 0; i < st.NumFields(); i++ {
+		if st.Field(i).Name() == field {
+			return field
+		}
+	}
+	if n, ok := FieldAlias[structKey(t)+"."+field]; ok {
+		return n
+	}
+	return field
+}
+
 func (e *Engine) evalField(s *State, c *SpecCtx, base *SV, field string) *SV {
 	if base.T == nil {
 		e.unsupportedf("field %s of untyped spec value", field)
 	}
+	field = aliasField(base.T, field)
 	t := base.T
 	if p, ok := t.Underlying().(*types.Pointer); ok {
 		st, ok := p.Elem().Underlying().(*types.Struct)
@@ -425,6 +452,7 @@ func hasField(t types.Type, name string) bool {
 	if !ok {
 		return false
 	}
+	name = aliasField(t, name)
 	for i := 0; i < st.NumFields(); i++ {
 		if st.Field(i).Name() == name {
 			return true
@@ -743,6 +771,9 @@ func (e *Engine) evalCall(s *State, c *SpecCtx, n *ast.CallExpr) *SV {
 		name, _ := strconv.Unquote(lit.Value)
 		k, _ := strconv.Atoi(n.Args[1].(*ast.BasicLit).Value)
 		ai, _ := strconv.Atoi(n.Args[2].(*ast.BasicLit).Value)
+		if DroppedReceiver[name] && ai >= 1 {
+			ai-- // the contract counted the receiver the function no longer has
+		}
 		cnt := 0
 		for _, ev := range s.Trace {
 			if ev.Kind == "call" && ev.What == name {
@@ -904,6 +935,9 @@ func (e *Engine) evalCall(s *State, c *SpecCtx, n *ast.CallExpr) *SV {
 					kind, name = k[:len(k)-1], name[len(k):]
 				}
 			}
+			if al, renamed := FieldAlias[name]; renamed {
+				name = name[:strings.LastIndex(name, ".")+1] + al // the channel field was renamed
+			}
 			pos := -1
 			for i, ev := range s.Trace {
 				if ev.Kind == kind && (ev.What == name || name == "") && i > last {
@@ -959,6 +993,9 @@ func (e *Engine) evalCall(s *State, c *SpecCtx, n *ast.CallExpr) *SV {
 		lit := n.Args[0].(*ast.BasicLit)
 		name, _ := strconv.Unquote(lit.Value)
 		ai, _ := strconv.Atoi(n.Args[1].(*ast.BasicLit).Value)
+		if DroppedReceiver[name] && ai >= 1 {
+			ai--
+		}
 		for i := len(s.Trace) - 1; i >= 0; i-- {
 			ev := s.Trace[i]
 			if ev.Kind == "call" && ev.What == name && ai < len(ev.Args) {
